@@ -221,6 +221,8 @@ Perturbations(s, sg) ==
   \cup {<<"drop_msg_only", pks, RemoveAt(ms, j), ValidSig(d)>> : j \in 1..n}
   \cup {<<"bad_key_" \o c, ReplaceAt(pks, j, BadKey(c)), ms, ValidSig(d)>> : j \in 1..n, c \in BadKeyClasses}
   \cup {<<"bad_sig_" \o c, pks, ms, BadSig(c, d)>> : c \in BadSigClasses}
+  \* malformed encodings of the IDENTITY signature (which is the honest aggregate when the keys cancel)
+  \cup {<<"bad_identity_sig_" \o c, pks, ms, BadSig(c, <<ZeroT>>)>> : c \in BadSigClasses \ {"bitflip"}}
   \cup {<<"extra_msg", pks, Append(ms, m), ValidSig(d)>> : m \in {"m1", "m3"}}
   \cup {<<"extra_key", Append(pks, ValidKey(k)), ms, ValidSig(d)>> : k \in {"K1", "K3"}}
   \* two keys outside the subgroup whose cofactor parts cancel, with the signature of the summed secret key
@@ -275,7 +277,11 @@ AggregateTheorem == IsSc => (
                       "extra_msg", "extra_key"} => ~Predict(sc)))
 
 \* (B) every scenario with its predicted result, one JSON line each
-Dump == IsSc => PrintT(ToJson([sc |-> sc, expect |-> Predict(sc)]))
+\* `core`: what the result would be if every presented encoding were the canonical one of its underlying value
+\* (used by the harness to prefer scenarios in which the encoding alone decides)
+Canon(x) == [x EXCEPT !.sig = [cls |-> "valid", desc |-> x.sig.desc],
+                      !.pks = [j \in 1..Len(x.pks) |-> [cls |-> "valid", key |-> x.pks[j].key]]]
+Dump == IsSc => PrintT(ToJson([sc |-> sc, expect |-> Predict(sc), core |-> Predict(Canon(sc))]))
 
 (***************************************************************************)
 (* Secret-key classes (C01): SkToPk / Sign / PopProve accept exactly the   *)
